@@ -137,7 +137,8 @@ def compare(variant, params, yA, ndA, yB, ndB, back, valid, what, p, sub):
 
 
 def _offset_task(task, p):
-    n, lo, hi, variant, params, letters = task
+    n, lo, hi, variant, params, letters = task[:6]
+    offsets = task[6] if len(task) > 6 else OFFSETS
     idx, _ = wc.words(n)
     idx = idx[lo:hi]
     valid = idx != 0
@@ -145,10 +146,12 @@ def _offset_task(task, p):
     yA = wc.render(idx, letters, nd)
     nl = (np.where(valid, yA, np.nan))
     nontriv = int((np.nanmax(nl, axis=1) != np.nanmin(nl, axis=1)).sum()) if valid.any() else 0
-    for c in OFFSETS:
+    for c in offsets:
         yB = yA + c
         compare(variant, params, yA, nd, yB, nd + c, lambda o, c=c: o - c, valid, f"offset {c}", p, "offset")
     p.count("offset", nontrivial=nontriv)
+    if len(task) > 6:
+        return
     if variant in ("ws2dgu", "ws2dpgu", "ws2doptv", "ws2doptvp", "ws2doptvplc"):
         yB = yA[:, ::-1].copy()
         compare(variant, params, yA, nd, yB, nd, lambda o: o[:, ::-1], valid, "time reversal", p, "reversal")
@@ -206,6 +209,13 @@ def run(ctx):
             lt = wc.letters_for(0) if params.get("robust") else letters
             for lo in range(0, total, step):
                 tasks.append((n, lo, min(total, lo + step), variant, params, lt))
+    # cold start of the lambda sweep: the first grid point is fitted from the zero curve, so the number of
+    # reweighting passes it needs depends on the level of the data; a grid that starts at lambda = 1 with p near 1
+    # makes that start slow.  All words of length 8 x offsets of a few thousand.
+    COLD = [-5000, 3000, 5000]
+    for p_env in (0.9, 0.95):
+        for lo in range(0, 4 ** 8, 4096):
+            tasks.append((8, lo, lo + 4096, "ws2doptvp", dict(srange="c", p=p_env), letters, COLD))
     ctx.pmap(_offset_task, tasks)
     ltasks = [(n, variant, params) for n in range(8, 3, -1) for variant, params in c02.combos()]
     ctx.pmap(_line_task, ltasks)
